@@ -258,7 +258,13 @@ def run_variant(repo_root, prop, name, rel, old, new, kind):
 
 # seeded changes that the checks answer with exit 2 (fail closed), by design: the change replaces an algorithm the rules
 # model by a different one, of which nothing positive can be said statically (DESIGN 5.2)
-UNDECIDABLE_SEEDS = {"C15-v1": "biccs rewritten from the edge-stack algorithm to a node-stack variant with a wrong pop"}
+UNDECIDABLE_SEEDS = {
+    "C15-v1": "biccs rewritten from the edge-stack algorithm to a node-stack variant with a wrong pop",
+    # feature-shaped seeds of round 10 whose new code replaces the construct the rules read (answered exit 2, see DESIGN 5.2)
+    "C02-k2": "columns 10 / 11 recomputed from the CIGAR by a new helper (M counted as match)",
+    "C12-k1": "common prefix / suffix stripped before the aligner is called, in a new helper",
+    "C18-k1": "a second ordering routine for unbranched components next to decompose_and_order",
+}
 
 
 def run_seed(repo_root, seed):
